@@ -57,7 +57,10 @@ class EventDebouncer(BaseThread):
                 if self.debounce_interval_seconds:
                     # Wait for additional events (or shutdown) until the debounce interval passes.
                     while self.should_keep_running():
-                        if not self._cond.wait(timeout=self.debounce_interval_seconds):
+                        pending = len(self._events)
+                        # A timed-out wait() has to take the lock again: an event may have
+                        # slipped in meanwhile, and the quiet period starts over with it.
+                        if not self._cond.wait(timeout=self.debounce_interval_seconds) and len(self._events) == pending:
                             break
 
                 if not self.should_keep_running():
